@@ -114,6 +114,23 @@ func cfgFor(profile string, i int) map[string]interface{} {
 	return nil
 }
 
+// versionProfile: one or two models with long version histories: updates, force-pushes, renewals of
+// the latest version, cancellations and timeouts of updates in flight.
+func versionProfile() chain.Profile {
+	p := payProfile()
+	p.Name = "version"
+	p.MaxData = 2
+	p.Weights = map[string]int{"Blocks": 12, "StoreNew": 4, "StoreUpdate": 24, "Complete": 40, "Cancel": 3, "Terminate": 1,
+		"Renew": 12, "Migrate": 3, "Claim": 2}
+	p.Sizes = []int64{1000, 5000}
+	p.Durs = []int64{3600, 7200}
+	p.Timeouts = []int64{20, 1800}
+	p.ForcePush = 50
+	p.Replicas = []int64{1, 1, 2}
+	p.ShortBlocks = true
+	return p
+}
+
 // scarceProfile: few providers, high replica counts, short timeouts and mostly silent providers:
 // the timeout machinery re-assigns, partially re-assigns, gives up and refunds.
 func scarceProfile() chain.Profile {
@@ -164,6 +181,8 @@ func profileByName(n string) chain.Profile {
 		return scarceProfile()
 	case "super":
 		return superProfile()
+	case "version":
+		return versionProfile()
 	case "did":
 		p := payProfile()
 		p.Name = "did"
